@@ -134,7 +134,7 @@ func checkC06(c *Ctx) {
 			gNotOwner := core.EqGuard("t.owner!="+up.Name(), core.IsFieldLoad(owner), func(v ssa.Value) bool { return core.Strip(v) == ssa.Value(up) }, false)
 			construct := fmt.Sprintf("%s: Subs.Update(%s, ModeGiven...)", fk(fn), up.Name())
 			// the sink is the selfupdate when the same function also strips a previous owner (has OwnerChange)
-			isSelfPath := len(core.CallsTo(fn, ownerChange)) > 0
+			isSelfPath := c.callsDeep(fn, ownerChange, 2)
 			okO, _ := core.GuardedBy(fn, s.call, gNotOwner, gUnset, gO)
 			okJ, _ := core.GuardedBy(fn, s.call, gNotOwner, gUnset, gJ)
 			if isSelfPath {
@@ -154,7 +154,7 @@ func checkC06(c *Ctx) {
 			}
 		}
 		// (3b) granting O requires actor == owner: for handlers of another user's subscription
-		if len(core.CallsTo(fn, ownerChange)) == 0 {
+		if !c.callsDeep(fn, ownerChange, 2) {
 			ups := uidParams(fn)
 			var sinks []ssa.Instruction
 			for _, s := range sites {
@@ -260,6 +260,9 @@ func describeCall(in ssa.Instruction) string {
 // valueHasOwnerCleared: v is a load of a local struct field cell every path to which passes a
 // store to that cell of the shape `x & K` with K & ModeOwner == 0 (or `x &^ ModeOwner`).
 func (c *Ctx) valueHasOwnerCleared(fn *ssa.Function, v ssa.Value, modeOwner *types.Const) bool {
+	if clearsOwner(core.Strip(v), modeOwner) {
+		return true
+	}
 	ld, ok := core.Strip(v).(*ssa.UnOp)
 	if !ok || ld.Op != token.MUL {
 		return false
@@ -277,23 +280,7 @@ func (c *Ctx) valueHasOwnerCleared(fn *ssa.Function, v ssa.Value, modeOwner *typ
 		if !ok || fa2.X != fa.X || fa2.Field != fa.Field {
 			return false
 		}
-		b, ok := st.Val.(*ssa.BinOp)
-		if !ok {
-			return false
-		}
-		switch b.Op {
-		case token.AND_NOT:
-			return core.IsConstOf(modeOwner)(b.Y)
-		case token.AND:
-			for _, side := range []ssa.Value{b.X, b.Y} {
-				if k, ok := side.(*ssa.Const); ok && k.Value != nil {
-					if constant.Sign(constant.BinaryOp(constant.ToInt(k.Value), token.AND, modeOwner.Val())) == 0 {
-						return true
-					}
-				}
-			}
-		}
-		return false
+		return clearsOwner(st.Val, modeOwner)
 	}
 	found, _ := core.PathAvoiding(fn, nil, func(in ssa.Instruction) bool { return in == ssa.Instruction(ld) }, isStrip, nil)
 	return !found
@@ -473,4 +460,25 @@ func (c *Ctx) checkOwnerWriters() {
 			r.Check(ok && cnt[0] > 0, "C06.6-owner-writers", construct+" [reload]", c.pos(st), "behind IsOwner(ModeGiven&ModeWant) of the loaded subscription", "Topic.owner is written outside creation, transfer and reload-under-IsOwner")
 		}
 	}
+}
+
+// clearsOwner: v is `x &^ ModeOwner` or `x & K` with K & ModeOwner == 0.
+func clearsOwner(v ssa.Value, modeOwner *types.Const) bool {
+	b, ok := v.(*ssa.BinOp)
+	if !ok {
+		return false
+	}
+	switch b.Op {
+	case token.AND_NOT:
+		return core.IsConstOf(modeOwner)(b.Y)
+	case token.AND:
+		for _, side := range []ssa.Value{b.X, b.Y} {
+			if k, ok := side.(*ssa.Const); ok && k.Value != nil {
+				if constant.Sign(constant.BinaryOp(constant.ToInt(k.Value), token.AND, modeOwner.Val())) == 0 {
+					return true
+				}
+			}
+		}
+	}
+	return false
 }
